@@ -94,6 +94,15 @@ def bounded_search(pid, known_kinds):
                 if name == "store-search":
                     w["seed"] = argv[1]
                 findings.append(w)
+    if pid in ("C01", "C02"):
+        # the byte-level unit `log` sees bufio.rs only through shims: bounded Kani stand-in on the verbatim file
+        import kani_standin
+        k = kani_standin.run()
+        runs.append({"scenario": "kani stand-in for bufio.rs", "argv": [], "exit": k.get("exit"), "searched": k.get("bounds"), "found": bool(k.get("failures")),
+                     "verified_harnesses": k.get("verified"), "cached": k.get("cached", False)})
+        if k.get("failures"):
+            findings.append({"found": True, "scenario": "kani-bufio", "kind": "kani-bufio", "props": pid,
+                             "observed": "Kani refuted a harness of kani/bufio: %s" % k.get("failed_checks"), "expected": "pos() tracks the logical offset"})
     if pid == "C03":
         import crashsearch
         r = crashsearch.search(binary)
